@@ -315,6 +315,35 @@ func (c *Ctx) smtInst(o *Obligation) (string, bool) {
 		cs = append(cs, k)
 	}
 	sort.Strings(cs)
+	var strCands []string
+	{
+		seenS := map[string]bool{}
+		addS := func(sym string) {
+			if !seenS[sym] && len(strCands) < 12 {
+				seenS[sym] = true
+				strCands = append(strCands, sym)
+			}
+		}
+		for _, d := range decls {
+			if strings.HasSuffix(d, " Str)") && strings.HasPrefix(d, "(declare-const |sk!") {
+				addS(d[len("(declare-const "):len(d)-len(" Str)")])
+			}
+		}
+		scanS := func(l string) {
+			if strings.HasPrefix(l, "(declare-const |") && strings.HasSuffix(l, " Str)") {
+				sym := l[len("(declare-const "):len(l)-len(" Str)")]
+				if strings.Contains(sym, ".t") || strings.HasPrefix(sym, "|p.") {
+					addS(sym)
+				}
+			}
+		}
+		for i := len(c.body[:o.Prefix]) - 1; i >= 0; i-- {
+			scanS(c.body[i])
+		}
+		for _, d := range c.decls {
+			scanS(d)
+		}
+	}
 	var insts []string
 	for _, q := range hyps {
 		n := len(q.names)
@@ -323,6 +352,14 @@ func (c *Ctx) smtInst(o *Obligation) (string, bool) {
 			if s != SInt {
 				allInt = false
 			}
+		}
+		if n == 1 && q.sorts[0] == "Str" {
+			// string-keyed facts (map domains, visited sets): the goal's string skolems and the string
+			// program variables
+			for _, v := range strCands {
+				insts = append(insts, q.instantiate([]string{v}))
+			}
+			continue
 		}
 		if !allInt || n > 2 {
 			continue
